@@ -1,5 +1,5 @@
 """Fail-closed translator from pure numeric Python functions (util/geometry.py: cartesienne, projection_droite, proj_segment,
-distance_to_segment) to Gallina over the generic number structure `Num T` of coq/Model/Num.v.
+distance_to_segment, proj_polyligne, triangle_area) to Gallina over the generic number structure `Num T` of coq/Model/Num.v.
 
 Read from the SOURCE with `ast` on every run.  The generated functions are then proved equal, for every number structure (so for the
 reals of the theorems and for the binary64 instance that is run against the implementation), to the hand-written ones of
@@ -34,10 +34,16 @@ class NumFn:
             raise Untranslatable('%s: parameters %r' % (name, args))
         self.params = list(zip(args, shape))
         self.arity = None
+        self.consts = []          # repr of the float literals, in order of appearance (they become parameters c_0, c_1 ... of the generated function)
 
     # values at translation time: a Coq term (str) for a number / boolean, a list of Coq terms for a sequence
     def E(self, n, env):
         N = 'N'
+        if isinstance(n, ast.Constant) and isinstance(n.value, float):
+            self.consts.append(repr(n.value))
+            return 'c_%d' % (len(self.consts) - 1)
+        if isinstance(n, ast.Call) and not n.keywords and isinstance(n.func, ast.Name) and n.func.id == 'abs' and len(n.args) == 1:
+            return '(abs N %s)' % self.num(n.args[0], env)
         if isinstance(n, ast.Constant):
             if n.value == 0 and not isinstance(n.value, (bool, float)):
                 return '(zero %s)' % N
@@ -94,6 +100,8 @@ class NumFn:
                 return '(if ltb %s %s %s then %s else %s)' % ((N, a, b, b, a) if f.id == 'max' else (N, b, a, b, a))
             if isinstance(f, ast.Name) and f.id in self.mod.done:
                 callee = self.mod.done[f.id]
+                if callee.consts:
+                    raise Untranslatable('%s: call of %s, which has float literals' % (self.name, f.id))
                 if len(n.args) != len(callee.params):
                     raise Untranslatable('%s: call of %s with %d arguments' % (self.name, f.id, len(n.args)))
                 flat = []
@@ -215,6 +223,9 @@ class NumFn:
             else:
                 env[nm] = ['%s_%d' % (V(nm), i) for i in range(k)]; sig += env[nm]
         body = self.block(self.node.body, env, set())
+        if self.consts:
+            return ('Definition gen_%s_consts : list string := [%s]%%string.\n' % (self.name, '; '.join('"%s"' % c for c in self.consts)) +
+                    'Definition gen_%s {T : Type} (N : Num T) (%s : T) (%s : T) :=\n  %s.' % (self.name, ' '.join('c_%d' % k for k in range(len(self.consts))), ' '.join(sig), body))
         return 'Definition gen_%s {T : Type} (N : Num T) (%s : T) :=\n  %s.' % (self.name, ' '.join(sig), body)
 
 
@@ -235,16 +246,12 @@ class LoopFn(NumFn):
 
     def __init__(self, mod, name, shape):
         NumFn.__init__(self, mod, name, shape)
-        self.consts = []          # repr of the float literals, in order of appearance
         self.lists = {a for a, k in self.params if k == 'L'}
         self.opt = []             # names only assigned inside the loop
         self.ivar = None
         self.natvars = set()
 
     def E(self, n, env):
-        if isinstance(n, ast.Constant) and isinstance(n.value, float):
-            self.consts.append(repr(n.value))
-            return 'c_%d' % (len(self.consts) - 1)
         if isinstance(n, ast.Name) and (n.id in self.opt or n.id in self.lists or n.id == self.ivar or n.id in self.natvars):
             raise Untranslatable('%s: %s read as a number (line %d)' % (self.name, n.id, n.lineno))
         if isinstance(n, ast.Subscript) and isinstance(n.value, ast.Name) and n.value.id in self.lists and self.ivar is not None:
@@ -255,8 +262,6 @@ class LoopFn(NumFn):
                     and isinstance(ix.right, ast.Constant) and ix.right.value == 1 and not isinstance(ix.right.value, (bool, float)):
                 return '(List.nth (S v_i) %s (zero N))' % V(n.value.id)
             raise Untranslatable('%s: index of %s (line %d)' % (self.name, n.value.id, n.lineno))
-        if isinstance(n, ast.Call) and not n.keywords and isinstance(n.func, ast.Name) and n.func.id == 'abs' and len(n.args) == 1:
-            return '(abs N %s)' % self.num(n.args[0], env)
         if isinstance(n, ast.List):
             return [self.num(e, env) for e in n.elts]
         return NumFn.E(self, n, env)
@@ -393,7 +398,7 @@ class NumModule:
         return '\n'.join(out) + '\n'
 
 
-SPECS = [('cartesienne', [4]), ('projection_droite', [3, 1, 1]), ('proj_segment', [4, 1, 1]), ('distance_to_segment', [1] * 6), ('proj_polyligne', ['L', 'L', 1, 1])]
+SPECS = [('cartesienne', [4]), ('projection_droite', [3, 1, 1]), ('proj_segment', [4, 1, 1]), ('distance_to_segment', [1] * 6), ('proj_polyligne', ['L', 'L', 1, 1]), ('triangle_area', [1] * 6)]
 
 
 def translate_geometry(path):
